@@ -13,6 +13,11 @@
    wrong product, is the failing input.
    Also: every party inputs its OWN value (flags must not depend on the local value), and rules
    granting integrality to public-int list operands are run with public ints.
+   Exhaustive streams (quick tier): ALL 2^n whole/fractional layouts, n = 1..7, of prod / sum /
+   in_prod (n <= 5: min, max, vector_add/sub, schur_prod, scalar_mul, if_else on lists), value and
+   flag checked; constructor stream secfxp(k +- d) (d around 2^-(f+1), 2^-f, 1e-9 k, ...) on six
+   types: flag => stored value whole, stored = round(v 2^f), following products right; the
+   constructor's inference source must be the recognised (int -> True, float -> is_integer()) form.
 4. Random fixed-point programs over scalars and MIXED-integrality lists through the
    flag-setting operations: after each result, flag true => whole number (value opened), value
    against an exact oracle; flags and values of the modelled operations are compared with the
@@ -35,7 +40,9 @@ MANIFEST = {
             'rule_no_other); scaled-integer model of mul/trunc (field wrap-around excluded by in-range hypotheses). NumPy array '
             'sites are translated (one flag per array) but not executed (/venv has no NumPy). Sites with constant-true rules '
             '(sgn, lsb, to_bits, random bits, unit vectors, indexOf) are checked dynamically only. Guards (raise unless '
-            'integral) are listed, not part of the list obligation. prod/pow chains, division: dynamic only. '
+            'integral) are listed, not part of the list obligation. prod (per-level integrality list) is not modelled in Coq: '
+            'all 2^n whole/fractional layouts for n<=7 are enumerated against the exact product instead; pow chains, division: '
+            'dynamic only. The constructor inference is checked by source form + a value stream around whole numbers. '
             'flag_sound_prog (induction over whole programs) is not stated: soundness is proved per operation (sound_mul etc. are '
             'preservation lemmas). Findings: F-C03-2..10 (first-element rule at _reshare, vector_add, vector_sub, scalar_mul, '
             '_if_else_list, _if_swap_list, schur_prod, matrix_prod, random_derangement) repaired in /repo by 9bcd50d; F-C03-12/13 '
